@@ -64,7 +64,7 @@ class BooleanProxy(AnyAtomicType):
         if isinstance(value, bool):
             return
         elif isinstance(value, str):
-            if cls.pattern.match(value) is None:
+            if cls.pattern.match(collapse_white_spaces(value)) is None:
                 raise cls._invalid_value(value)
         else:
             raise cls._invalid_type(value)
@@ -112,7 +112,7 @@ class DecimalProxy(AnyAtomicType):
             case int() | Integer():
                 return
             case str():
-                if cls.pattern.match(value) is None:
+                if cls.pattern.match(collapse_white_spaces(value)) is None:
                     raise cls._invalid_value(value)
             case _:
                 raise cls._invalid_type(value)
@@ -153,7 +153,7 @@ class DoubleProxy(AnyAtomicType):
         if isinstance(value, float) and not isinstance(value, Float):
             return
         elif isinstance(value, str):
-            if cls.pattern.match(value) is None:
+            if cls.pattern.match(collapse_white_spaces(value)) is None:
                 raise cls._invalid_value(value)
         else:
             raise cls._invalid_type(value)
